@@ -86,8 +86,7 @@ func New(ctx context.Context, log *slog.Logger, opts ...Opt) (*Engine, error) {
 		e.mCfg.MetricsCollector = mc
 	}
 
-	// The assigned genesis may be a zero value if the chain was already initialized,
-	// but the state machine should be able to handle that.
+	// If the chain was already initialized, the genesis is rebuilt from the stores.
 	smCfg.Genesis, err = e.maybeInitializeChain(ctx, smCfg.FinalizationStore)
 	if err != nil {
 		return nil, err
@@ -240,7 +239,8 @@ func (e *Engine) validateSettings(smc tmstate.StateMachineConfig) error {
 
 // maybeInitializeChain checks if we need to call into the app for InitChain, and calls it if required.
 //
-// The Genesis value returned is only populated if InitChain was called.
+// The Genesis value returned is the result of InitChain if it was called now,
+// or rebuilt from the stores if the chain was initialized in an earlier run.
 // It needs to be set in the state machine config.
 func (e *Engine) maybeInitializeChain(
 	ctx context.Context, fStore tmstore.FinalizationStore,
@@ -258,7 +258,7 @@ func (e *Engine) maybeInitializeChain(
 		if e.initChainCh != nil {
 			close(e.initChainCh)
 		}
-		return tmconsensus.Genesis{}, nil
+		return e.storedGenesis(ctx, fStore), nil
 	}
 	if err != tmstore.ErrStoreUninitialized {
 		return tmconsensus.Genesis{}, fmt.Errorf(
@@ -273,7 +273,7 @@ func (e *Engine) maybeInitializeChain(
 	_, _, _, _, err = fStore.LoadFinalizationByHeight(ctx, initFinHeight)
 	if err == nil {
 		// We have the finalization, so we don't need to initialize the chain.
-		return tmconsensus.Genesis{}, nil
+		return e.storedGenesis(ctx, fStore), nil
 	}
 	if !errors.Is(err, tmconsensus.HeightUnknownError{Want: initFinHeight}) {
 		return tmconsensus.Genesis{}, fmt.Errorf(
@@ -352,6 +352,31 @@ func (e *Engine) maybeInitializeChain(
 	)
 
 	return updatedGenesis, nil
+}
+
+// storedGenesis rebuilds, for a chain that was initialized in an earlier run,
+// the genesis value that InitChain produced then:
+// the state machine compares heights against its initial height,
+// and at the initial height it takes the validator set and the genesis block hash from it,
+// so it needs the same value again after a restart.
+//
+// The validator set and app state hash come from the finalization
+// that was stored for the height before the initial height;
+// if that finalization was pruned, only the chain ID and initial height are set,
+// which is sufficient past the initial height.
+func (e *Engine) storedGenesis(ctx context.Context, fStore tmstore.FinalizationStore) tmconsensus.Genesis {
+	g := tmconsensus.Genesis{
+		ChainID:       e.genesis.ChainID,
+		InitialHeight: e.genesis.InitialHeight,
+	}
+
+	_, _, valSet, appStateHash, err := fStore.LoadFinalizationByHeight(ctx, e.genesis.InitialHeight-1)
+	if err == nil {
+		g.ValidatorSet = valSet
+		g.CurrentAppStateHash = []byte(appStateHash)
+	}
+
+	return g
 }
 
 // HandleProposedHeader satisfies the [tmconsensus.ConsensusHandler] interface.
